@@ -28,7 +28,8 @@ def run(res):
     combos = []
     for i, b in enumerate(ins):
         opts = [dict(), dict(check="standard"), dict(filepath="sub/name.lua"), dict(filepath="ign/skip.lua", respect=True), dict(filepath="ign/skip.lua"),
-                dict(check="json"), dict(verify=True), dict(cfg=True), dict(filepath="ign/skip.lua", respect=True, check="standard"), dict(filepath="sub/name.lua", subcfg=True), dict(filepath="./sub/other.lua", subcfg=True, check="standard")]
+                dict(check="json"), dict(verify=True), dict(cfg=True), dict(filepath="ign/skip.lua", respect=True, check="standard"), dict(filepath="sub/name.lua", subcfg=True), dict(filepath="./sub/other.lua", subcfg=True, check="standard"),
+                dict(ecfg="cli"), dict(ecfg="only"), dict(ecfg="cli", filepath="sub/name.lua")]
         pick = opts if (len(b) < 4000 or res.tier != "quick") else opts[:2]
         if len(b) > 10**6: pick = [dict(), dict(check="summary")]
         for o in pick: combos.append((i, b, o))
@@ -37,7 +38,9 @@ def run(res):
     for k, (i, b, o) in enumerate(combos):
         try: b.decode("utf-8")
         except UnicodeDecodeError: continue
-        feed.append("k%d %s %s" % (k, "indent_type=Spaces;indent_width=3" if (o.get("cfg") or o.get("subcfg")) else ("__verify=1" if o.get("verify") else "-"), hexs(b)))
+        # an .editorconfig in the working directory says two spaces; command line options (three spaces) win over it
+        cfgw = "indent_type=Spaces;indent_width=3" if (o.get("cfg") or o.get("subcfg") or o.get("ecfg") == "cli") else "indent_type=Spaces;indent_width=2" if o.get("ecfg") == "only" else ("__verify=1" if o.get("verify") else "-")
+        feed.append("k%d %s %s" % (k, cfgw, hexs(b)))
     lib = {}
     for l in sh([SVH, "fmt"], inp="\n".join(feed) + "\n", timeout=900).stdout.splitlines():
         w = l.split(); lib[w[0]] = (bytes.fromhex(w[2][1:]) if len(w) > 2 and w[1] == "ok" else None)
@@ -51,8 +54,10 @@ def run(res):
             open(os.path.join(d, "sub", "name.lua"), "w").write("local   keep  =  1\n")
             if o.get("cfg"): open(os.path.join(d, "stylua.toml"), "w").write('indent_type = "Spaces"\nindent_width = 3\n')
             if o.get("subcfg"): open(os.path.join(d, "sub", "stylua.toml"), "w").write('indent_type = "Spaces"\nindent_width = 3\n')
+            if o.get("ecfg"): open(os.path.join(d, ".editorconfig"), "w").write("root = true\n[*.lua]\nindent_style = space\nindent_size = 2\n")
             before = tree_state(d)
-            args = ["--no-editorconfig"]
+            args = [] if o.get("ecfg") else ["--no-editorconfig"]
+            if o.get("ecfg") == "cli": args += ["--indent-type", "Spaces", "--indent-width", "3"]
             if o.get("check"): args += ["--check", "--output-format=" + o["check"], "--color=never"]
             if o.get("filepath"): args += ["--stdin-filepath", o["filepath"]]
             if o.get("respect"): args += ["--respect-ignores"]
@@ -78,7 +83,7 @@ def run(res):
     res.coverage.update(
         evaluations=tot.get("runs", 0), distinct_nontrivial=tot.get("nontrivial", 0),
         rule="inputs: 14 hand cases (empty, newline only, no trailing newline, CRLF, two parse errors, comment only, BOM, shebang, call sugar, CRLF long string), one multi-megabyte program (%d bytes), %d repository test inputs; "
-             "options: none, --check (standard/json/summary), --stdin-filepath (plain and ignored), --respect-ignores, --verify, a stylua.toml in the working directory, a stylua.toml in the directory --stdin-filepath points into; the working directory holds an ignore file and two unformatted files "
+             "options: none, --check (standard/json/summary), --stdin-filepath (plain and ignored), --respect-ignores, --verify, a stylua.toml in the working directory, a stylua.toml in the directory --stdin-filepath points into, an .editorconfig in the working directory alone and against command line options (which win); the working directory holds an ignore file and two unformatted files "
              "whose bytes and mtimes are compared before/after. non-trivial = the library changes the text or rejects it" % (sizes[-1], len(ins) - 15),
         samples=recs[:3] + recs[-2:], input_distribution=dict(tot, input_sizes=dict(min=sizes[0], median=sizes[len(sizes)//2], max=sizes[-1])),
         correspondence="CliModel.stdin_run (extracted) gives stdout (as hash of the library's formatted text / the input passed through / nothing) and status; compared with the binary; the working directory must be unchanged")
